@@ -190,7 +190,7 @@ def _suff():
         cfg={"quick": "Suff_quick.cfg", "thorough": "Suff_thorough.cfg"}, sample={"quick": 1400, "thorough": 12000}, variants=variants,
         spec_files=["Suff.tla", "SuffDefs.tla", "SuffTrace.tla", "Cal.tla"],
         always=lambda b: ('span |-> 328' in b and 'cls |-> "billing"' in b) or ('lead |-> 6' in b and 'trail |-> 5' in b) or 'mcase |-> TRUE' in b
-                          or 'span |-> 400' in b,   # known-finding cases and the second-year gaps are never sampled away
+                          or 'span |-> 420' in b,   # known-finding cases and the second-year gaps are never sampled away
         rule="TLC enumerates class x role x fuel x negatives x start date x span {250..420 incl. 328/329/365/366} x missing-usage and "
              "missing-temperature day counts at each 90% threshold -1/0/+1 x placements (block, early block, spread), plus the monthly-rule cases (1..4 consecutive days of one 30-day / 31-day / February / partial first month without temperature - hourly baselines: or usage; always replayed); a seeded sample is realised as "
              "real frames / series pairs (daily, billing: one row per day; hourly: 24 rows per day) in DST-free and DST zones; "
